@@ -151,7 +151,7 @@ def check_case(case):
         try:
             cmd = TestUnitReady(op)
         except Exception as e:  # noqa
-            expect(want is None and type(e).__name__ == "OpcodeException",
+            expect(want is None and isinstance(e, SCSICommand.OpcodeException),
                    "mismatch:ctor_refused_fixed_length_opcode" if want else "exc:%s@ctor" % type(e).__name__,
                    value=v, error=repr(e))
         else:
@@ -164,7 +164,7 @@ def check_case(case):
         try:
             b = tur.build_cdb(opcode=v)
         except Exception as e:  # noqa
-            expect(want is None and type(e).__name__ == "OpcodeException",
+            expect(want is None and isinstance(e, SCSICommand.OpcodeException),
                    "mismatch:build_cdb_refused_fixed_length_opcode" if want else "exc:%s@build_cdb" % type(e).__name__,
                    value=v, error=repr(e)[:160])
         else:
@@ -187,7 +187,7 @@ def _check_len(SCSICommand, op, want, what):
     try:
         cdb = SCSICommand.init_cdb(op)
     except Exception as e:  # noqa
-        expect(type(e).__name__ == "OpcodeException", "exc:%s@init_cdb" % type(e).__name__,
+        expect(isinstance(e, SCSICommand.OpcodeException), "exc:%s@init_cdb" % type(e).__name__,
                what=what, error=repr(e))
         expect(want is None, "mismatch:refused_fixed_length_opcode", what=what, want=want)
         return
